@@ -291,15 +291,50 @@ def starlit_shard(job) -> dict:
     return acc.out()
 
 
-def run(ctx) -> None:
-    sts, nested = cases_for(ctx.quick)
-    hist_len = 1 if ctx.quick else 2
-    jobs = [("flat", lo, hi, hist_len, ctx.quick) for lo, hi in pool.split_range(len(sts), 48)]
-    jobs += [("nested", lo, hi, hist_len, ctx.quick)
+def all_jobs(quick: bool, hist_len: int) -> list:
+    sts, nested = cases_for(quick)
+    jobs = [("flat", lo, hi, hist_len, quick) for lo, hi in pool.split_range(len(sts), 48)]
+    jobs += [("nested", lo, hi, hist_len, quick)
              for lo, hi in pool.split_range(len(nested), len(nested))]
-    jobs.append(("starlit", 0, 0, 0, ctx.quick))
+    jobs.append(("starlit", 0, 0, 0, quick))
+    return jobs
+
+
+def optimised_process() -> dict:
+    """The quick-tier space once more in an interpreter started with PYTHONOPTIMIZE=1
+    (python -O): refusing an over-sized statement must not hinge on `assert` statements."""
+    import json  # noqa: PLC0415
+    import os  # noqa: PLC0415
+    import subprocess  # noqa: PLC0415
+    import sys  # noqa: PLC0415
+
+    from mc import env  # noqa: PLC0415
+
+    envp = dict(os.environ)
+    envp["PYTHONOPTIMIZE"] = "1"
+    envp["VERIF_C18_OPT"] = "1"
+    r = subprocess.run([sys.executable, "-B", "-W", "ignore", "-m", "mc.checks.c18"],
+                       capture_output=True, text=True, env=envp, cwd=env.VERIF, check=False)
+    if r.returncode != 0:
+        raise env.HarnessError(f"optimised subprocess failed: {r.stderr[-800:]}")
+    out = json.loads(r.stdout.strip().splitlines()[-1])
+    if out["optimize"] < 1:
+        raise env.HarnessError("the subprocess did not run in optimised mode")
+    return out
+
+
+def run(ctx) -> None:
+    hist_len = 1 if ctx.quick else 2
+    sts, nested = cases_for(ctx.quick)
+    jobs = all_jobs(ctx.quick, hist_len)
     merged = pool.merge(pool.pmap(shard, jobs))
     ctx.add(merged)
+    opt = optimised_process()
+    for v in opt["violations"]:
+        ctx.violation({**v["sig"], "mode": "python -O"},
+                      f"under python -O (PYTHONOPTIMIZE=1): {v['what']}",
+                      {**v["case"], "optimised": True})
+    ctx.coverage["cases_under_python_O"] = opt["evals"]
     ctx.coverage.update(
         evaluations=merged["evals"],
         distinct_nontrivial=merged["nontrivial"],
@@ -321,5 +356,24 @@ def run(ctx) -> None:
 
 
 def replay(case: dict) -> list:
+    if case.get("optimised"):
+        key = {k: v for k, v in case.items() if k != "optimised"}
+        return [v["what"] for v in optimised_process()["violations"] if v["case"] == key]
     r = run_case(case)
     return [r[1]] if r else []
+
+
+if __name__ == "__main__":
+    import json as _json
+    import os as _os
+    import sys as _sys
+
+    if _os.environ.get("VERIF_C18_OPT"):
+        from mc import env as _env
+
+        _env.pin()
+        _env.assert_repo_pyjelly()
+        DR.ensure_rdflib_plugin()
+        _m = pool.merge(pool.pmap(shard, all_jobs(True, 0)))
+        print(_json.dumps({"optimize": _sys.flags.optimize, "evals": _m["evals"],
+                           "violations": _m["violations"][:50]}))
